@@ -1,5 +1,8 @@
 (* exhaustive search of the micro-step FEB model (Feb/Micro.v): all interleavings of two API calls on one word.
-   A search for failing schedules (not a proof).  usage: c01micro_driver [-v]   prints one line per (init, opA, opB) with a bad final state *)
+   usage: c01micro_driver [-v] [--old]      exhaustive search; one line per (init, opA, opB) with a bad final state
+          c01micro_driver --held [--old]    stdin lines "h <absent|empty> <A op> <A val> <k> <B op> <B val>": the model's outcome of the
+                                            schedule "A up to its k-th stripe unlock, B as far as it gets, A to the end, B to the end"
+   --old = access order before /repo eba51ae (mstep_old) *)
 open C01micro_model
 let rec pos_of_int n = if n = 1 then XH else if n land 1 = 0 then XO (pos_of_int (n lsr 1)) else XI (pos_of_int (n lsr 1))
 let z_of_int n = if n = 0 then Z0 else Zpos (pos_of_int n)
@@ -9,10 +12,43 @@ let t0 = N0 and t1 = Npos XH
 let ops v = [ "readFE", OReadFE DOwn; "readFE_nb", OReadFE_nb DOwn; "readFF", OReadFF DOwn; "readFF_nb", OReadFF_nb DOwn;
               "readXX", OReadXX DOwn; "writeEF", OWriteEF (Some v); "writeEF_nb", OWriteEF_nb (Some v); "writeF", OWriteF (Some v);
               "writeFF", OWriteFF (Some v); "fill", OFill; "empty", OEmpty; "purge_to", OPurge (Some v); "status", OStatus ]
-let str_res = function None -> "BLK" | Some (c, v) -> (match c with OK -> "0" | OPFAIL -> "-7") ^ ":" ^ (match v with None -> "-" | Some z -> string_of_int (int_of_z z))
+let str_res = function None -> "BLK:-" | Some (c, v) -> (match c with OK -> "0" | OPFAIL -> "-7") ^ ":" ^ (match v with None -> "-" | Some z -> string_of_int (int_of_z z))
+let mstep = if Array.mem "--old" Sys.argv then mstep_old else mstep
+
+let op_named name v = List.assoc name (ops (z_of_int v))
+
+let held () =
+  try while true do
+    let line = String.trim (input_line stdin) in
+    (match String.split_on_char ' ' line with
+     | ["h"; init; na; va; k; nb; vb] ->
+       let pe = (init = "empty") and k = int_of_string k in
+       let s = ref (minit pe (z_of_int 5) (op_named na (int_of_string va)) (op_named nb (int_of_string vb))) in
+       let rec run t = match mstep !s t with Some s' -> s := s'; run t | None -> () in
+       (* phase 1: A until it has released the stripe lock k times (k = 0: A runs to the end) *)
+       let cnt = ref 0 in
+       let continue_ = ref true in
+       while !continue_ && (k = 0 || !cnt < k) do
+         match mstep !s t0 with
+         | Some s' -> if !s.m_stripe = Some t0 && s'.m_stripe = None then incr cnt; s := s'
+         | None -> continue_ := false
+       done;
+       let paused = if k > 0 && !cnt = k then 1 else 0 in
+       run t1;
+       let contended = if finished !s.m_t1 || !s.m_t1.t_blk then 0 else 1 in
+       let moved = ref true in
+       while !moved do
+         let before = !s in run t0; run t1; moved := (before <> !s)
+       done;
+       let (((ra, rb), f), w) = outcome_of !s in
+       Printf.printf "A=%s B=%s status=%d word=%d paused=%d contended=%d\n" (str_res ra) (str_res rb) (if f then 1 else 0) (int_of_z w) paused contended
+     | _ -> print_endline "ERR");
+    flush stdout
+  done with End_of_file -> ()
+
 let () =
+  if Array.mem "--held" Sys.argv then held () else
   let verbose = Array.mem "-v" Sys.argv in
-  let mstep = if Array.mem "--fixed" Sys.argv then mstep_fixed else mstep in
   let nstates = ref 0 and nfinal = ref 0 and nbad = ref 0 and npairs = ref 0 and badpairs = ref 0 in
   List.iter (fun pe ->
     List.iter (fun (na, oa) ->
